@@ -239,7 +239,7 @@ func (e *Engine) stub(fn *ssa.Function, a []Value) (Value, bool) {
 		e.goPanic("needle not found")
 	case "bytes.NewBuffer":
 		return &Ptr{Obj: e.newObj(ropeOf(a[0]))}, true
-	case "(*bytes.Buffer).WriteRune":
+	case "(*bytes.Buffer).WriteRune", "(*strings.Builder).WriteRune":
 		p := bufPtr(a[0])
 		r, ok := a[1].(int64)
 		if !ok {
@@ -247,11 +247,11 @@ func (e *Engine) stub(fn *ssa.Function, a []Value) (Value, bool) {
 		}
 		p.Obj.Val = ropeCat(p.Obj.Val.(*Rope), ropeOf(string(rune(r))))
 		return Tuple{int64(1), Nil{}}, true
-	case "(*bytes.Buffer).Write", "(*bytes.Buffer).WriteString":
+	case "(*bytes.Buffer).Write", "(*bytes.Buffer).WriteString", "(*strings.Builder).Write", "(*strings.Builder).WriteString":
 		p := bufPtr(a[0])
 		p.Obj.Val = ropeCat(p.Obj.Val.(*Rope), ropeOf(a[1]))
 		return Tuple{int64(0), Nil{}}, true
-	case "(*bytes.Buffer).WriteByte":
+	case "(*bytes.Buffer).WriteByte", "(*strings.Builder).WriteByte":
 		p := bufPtr(a[0])
 		r, ok := a[1].(int64)
 		if !ok {
@@ -259,9 +259,15 @@ func (e *Engine) stub(fn *ssa.Function, a []Value) (Value, bool) {
 		}
 		p.Obj.Val = ropeCat(p.Obj.Val.(*Rope), ropeOf(string([]byte{byte(r)})))
 		return Nil{}, true
-	case "(*bytes.Buffer).Bytes", "(*bytes.Buffer).String":
+	case "(*bytes.Buffer).Bytes", "(*bytes.Buffer).String", "(*strings.Builder).String":
 		p := bufPtr(a[0])
 		return ropeVal(p.Obj.Val.(*Rope)), true
+	case "(*bytes.Buffer).Grow", "(*strings.Builder).Grow":
+		bufPtr(a[0])
+		return nil, true
+	case "(*bytes.Buffer).Reset", "(*strings.Builder).Reset":
+		bufPtr(a[0]).Obj.Val = &Rope{}
+		return nil, true
 	case "encoding/json.Marshal":
 		return e.jsonMarshal(a[0]), true
 	case "encoding/json.Unmarshal":
